@@ -433,7 +433,7 @@ fn all_libs(g: &Glyph) -> Vec<&Plist> {
     v.extend(g.anchors.iter().filter_map(|a| a.lib()));
     v.extend(g.guidelines.iter().filter_map(|a| a.lib()));
     v.extend(g.components.iter().filter_map(|a| a.lib()));
-    for c in &g.contours {
+    for c in g.contours.iter().filter(|c| !c.points.is_empty()) {
         v.extend(c.lib());
         v.extend(c.points.iter().filter_map(|p| p.lib()));
     }
@@ -452,9 +452,6 @@ fn classes(g: &Glyph, indent_count: usize) -> Vec<&'static str> {
         if n.is_empty() || n.starts_with(xml_ws) || n.ends_with(xml_ws) {
             c.push("F3");
         }
-    }
-    if g.contours.iter().any(|c| c.points.is_empty()) {
-        c.push("empty-contour");
     }
     c.dedup();
     c
@@ -585,6 +582,12 @@ fn differs(g: &Glyph, h: &Glyph) -> Option<String> {
     None
 }
 
+fn drop_empty(g: &Glyph) -> Glyph {
+    let mut d = g.clone();
+    d.contours.retain(|c| !c.points.is_empty());
+    d
+}
+
 fn options(ch: u8, count: usize, single: bool) -> WriteOptions {
     let o = WriteOptions::default().indent(ch, count);
     if single {
@@ -620,7 +623,8 @@ fn emit(out: &mut String, id: i64, g: &Glyph, valid: bool, why: &str, ch: u8, co
             let (tm, short, h) = parse_outcome(&b);
             let (verdict, field) = match &h {
                 None => (format!("reparse {}", short), String::new()),
-                Some(h) => match differs(g, h) {
+                // contours without points are not written: the glyph read back is the glyph without them
+                Some(h) => match differs(&drop_empty(g), h) {
                     None => ("equal".to_string(), String::new()),
                     Some(f) => ("differs".to_string(), f),
                 },
